@@ -93,7 +93,7 @@ impl Scenario for C09 {
 
     fn runs(&self, tier: Tier) -> u64 {
         match tier {
-            Tier::Quick => 30_000,
+            Tier::Quick => 200_000,
             Tier::Thorough => 8_000_000,
         }
     }
